@@ -4,13 +4,15 @@
 (* the transcription (T) and the property on the model (ModelOk) and exports *)
 (* every case.  One case = one distinct state.                               *)
 EXTENDS Ufunc, Json
-CONSTANTS Units, ConvUnits, UKinds0, UKinds1, UfOps, Forms, ArrFns, Fams, SpUnits
+CONSTANTS Units, ConvUnits, UKinds0, UKinds1, UfOps, Forms, ArrFns, Fams, SpUnits, Hists, HUnits
 NoTable == [x \in {} |-> 0]
 
 VARIABLE c
 Init == c = <<>>
-Case(fam, op, form, k0, n0, k1, n1) == [fam |-> fam, op |-> op, form |-> form, k0 |-> k0, n0 |-> n0, k1 |-> k1, n1 |-> n1]
-HasUnit(k) == k \in UnytKinds \cup ListQ
+\* h: registry history between the construction of the two operands ("none": both units come from one registry state)
+CaseH(fam, op, form, k0, n0, k1, n1, h) == [fam |-> fam, op |-> op, form |-> form, k0 |-> k0, n0 |-> n0, k1 |-> k1, n1 |-> n1, h |-> h]
+Case(fam, op, form, k0, n0, k1, n1) == CaseH(fam, op, form, k0, n0, k1, n1, "none")
+HasUnit(k) == k \in UnytKinds \cup ListQ \cup HetList
 UnitOk(k, n) == IF HasUnit(k) THEN n \in Units ELSE n = "nd"
 
 OperatorOps == {"add","subtract","remainder","divmod","multiply","divide","floor_divide","less","less_equal","greater","greater_equal","equal","not_equal"}
@@ -18,14 +20,16 @@ InPlaceOps == {"add","subtract","remainder","multiply","divide","floor_divide"}
 ReduceOps == {"add","maximum","minimum","fmax","fmin"}
 \* special value classes are paired with plain partners only (a tiny bare operand with a quantity/array, a tiny
 \* quantity with a bare number/array or a quantity), on the units SpUnits, in the forms that reach the zero scan
-Partner(k, other) == IF k \in {"tq","tqa"} THEN other \in {"bs","ba","q"} ELSE other \in {"q","a"}
+\* the same economy for heterogeneous sequences, tuples and the three-element mixed list (scalar partner: its shape is (3,))
+Restricted == SpecialKinds \cup HetList \cup {"tlq","tlqm","lqm3"}
+Partner(k, other) == IF k \in {"tq","tqa"} THEN other \in {"bs","ba","q"} ELSE IF k = "lqm3" THEN other = "q" ELSE other \in {"q","a"}
 SpecialOk(form, k0, n0, k1, n1) ==
-  /\ (k0 \in SpecialKinds => Partner(k0, k1))
-  /\ (k1 \in SpecialKinds => Partner(k1, k0))
-  /\ ((k0 \in SpecialKinds \/ k1 \in SpecialKinds) =>
+  /\ (k0 \in Restricted => Partner(k0, k1))
+  /\ (k1 \in Restricted => Partner(k1, k0))
+  /\ ((k0 \in Restricted \/ k1 \in Restricted) =>
         n0 \in SpUnits \cup {"nd"} /\ n1 \in SpUnits \cup {"nd"} /\ form \in {"call","operator","iop"})
 \* special classes offered to array functions / __setitem__ (second operand only)
-ArrSpecial == {"ts","nz","ns","ta","tm"}
+ArrSpecial == {"ts","nz","ns","ta","tm","lzq","lbq","lqb","tlqm"}
 UfLegal(op, form, k0, k1) ==
   /\ (k0 \in UnytKinds \/ k1 \in UnytKinds)
   /\ CASE form = "call" -> TRUE
@@ -37,12 +41,12 @@ UfLegal(op, form, k0, k1) ==
        [] form = "reduce_initial" -> op \in ReduceOps /\ k0 = "a" /\ k1 \in {"q","bs","z"}
        [] OTHER -> FALSE
 
-V1 == {"a","az","ba","bl","za","zl","lq","lqm","ta","tm"}
+V1 == {"a","az","ba","bl","za","zl","lq","lqm","ta","tm","lzq","lbq","lqb","tlqm"}
 NoCol == AllKinds \ {"c"}
-Plain == AllKinds \ ({"c"} \cup ListQ)
+Plain == AllKinds \ ({"c"} \cup ListQ \cup HetList)
 ArrLegal(op, k0, k1) ==
   CASE op = "block" -> k0 \in {"a","az","ba","za"} /\ k1 \in {"a","az","ba","za"} /\ ({k0,k1} \cap {"a","az"} # {})
-    [] op = "append" -> k0 \in V1 \ ListQ /\ k1 \in V1 \ ListQ /\ ({k0,k1} \cap {"a","az"} # {})
+    [] op = "append" -> k0 \in V1 \ (ListQ \cup HetList) /\ k1 \in V1 \ (ListQ \cup HetList) /\ ({k0,k1} \cap {"a","az"} # {})
     [] op \in ListMerge \cup {"choose"} -> k0 \in V1 /\ k1 \in V1 /\ ({k0,k1} \cap {"a","az"} # {})
     [] op = "where" -> k0 \in NoCol /\ k1 \in NoCol /\ ({k0,k1} \cap UnytKinds # {})
     [] op = "select" -> k0 \in {"a","az"} /\ k1 \in V1 \cup {"q","bs","z"}
@@ -68,11 +72,11 @@ Next ==
      \/ /\ "arrfn" \in Fams
         /\ \E op \in ArrFns \cap ArrOps, k0 \in UKinds0, k1 \in UKinds1, n0 \in Units \cup {"nd"}, n1 \in Units \cup {"nd"} :
              /\ ArrLegal(op, k0, k1) /\ UnitOk(k0, n0) /\ UnitOk(k1, n1)
-             /\ k0 \notin SpecialKinds /\ (k1 \in SpecialKinds => k1 \in ArrSpecial /\ n0 \in SpUnits \cup {"nd"})
+             /\ k0 \notin Restricted /\ (k1 \in Restricted => k1 \in ArrSpecial /\ n0 \in SpUnits \cup {"nd"} /\ n1 \in SpUnits \cup {"nd"})
              /\ c' = Case("arrfn", op, "call", k0, n0, k1, n1)
      \/ /\ "setitem" \in Fams
         /\ \E k1 \in UKinds1 \ {"c"}, n0 \in Units, n1 \in Units \cup {"nd"} :
-             /\ UnitOk(k1, n1) /\ (k1 \in SpecialKinds => k1 \in ArrSpecial \cup {"tq","tqa"} /\ n0 \in SpUnits /\ n1 \in SpUnits \cup {"nd"})
+             /\ UnitOk(k1, n1) /\ (k1 \in Restricted => k1 \in ArrSpecial \cup {"tq","tqa","tlq"} /\ n0 \in SpUnits /\ n1 \in SpUnits \cup {"nd"})
              /\ c' = Case("setitem", "setitem", IF Shape(k1) = "s" THEN "index" ELSE "slice", "a", n0, k1, n1)
      \/ /\ "conv" \in Fams
         /\ \E e \in {"to","in_units","to_value","convert_to_units"}, f \in {"obj","str"}, k0 \in {"q","a"}, n0 \in ConvUnits, n1 \in ConvUnits :
@@ -80,7 +84,21 @@ Next ==
      \/ /\ "unitop" \in Fams
         /\ \E e \in {"add","subtract"}, n0 \in ConvUnits, n1 \in ConvUnits :
              c' = Case("unitop", e, "operator", "u", n0, "u", n1)
-Spec == Init /\ [][Next]_c
+\* registry histories: the first operand keeps the Unit object it was built with, then the SAME symbol is re-defined
+\* (modify by a quantity / remove + add / a second registry) with the definition of n1, and the second operand is built
+\* from the symbol afterwards.  Transcription and property see two units n0, n1 - the history must not matter.
+HKinds == {<<"q","q">>, <<"a","a">>, <<"a","q">>}
+HNext ==
+  /\ c = <<>> /\ "hist" \in Fams
+  /\ \E h \in Hists, n0 \in HUnits, n1 \in HUnits, kk \in HKinds :
+       \/ \E op \in UfOps \cap KnownOps, form \in {"call","operator","iop","outer"} :
+            /\ UfLegal(op, form, kk[1], kk[2]) /\ c' = CaseH("ufunc", op, form, kk[1], n0, kk[2], n1, h)
+       \/ \E op \in (ArrFns \cap ArrOps) \ {"einsum"} :
+            /\ ArrLegal(op, kk[1], kk[2]) /\ c' = CaseH("arrfn", op, "call", kk[1], n0, kk[2], n1, h)
+       \/ /\ kk[1] = "a" /\ c' = CaseH("setitem", "setitem", IF kk[2] = "q" THEN "index" ELSE "slice", "a", n0, kk[2], n1, h)
+       \/ \E e \in {"to","in_units","to_value","convert_to_units"} : c' = CaseH("conv", e, "obj", kk[1], n0, "u", n1, h)
+NextAll == Next \/ HNext
+Spec == Init /\ [][NextAll]_c
 
 \* every case is exported with the model-level verdict; ufuncs of the tree the specification has no rule for are reported
 Export == c # <<>> => PrintT(ToJson([tag |-> "CASE", c |-> c, dem |-> Demanded(c) \/ EqDemanded(c), mok |-> ModelOk(c), mk |-> Outcome(c).k]))
